@@ -66,51 +66,61 @@ theorem submit_queued_invoked (cfg : Cfg) (e : Exec) (ctx : Option Nat) (g : G) 
       · simp [hr, hq] at h; rw [← h.2.2]
       · simp [hr, hq] at h
 
+theorem finv_submitId (cfg : Cfg) (s : FState) (e : Exec) (id : Nat) (h : FInv s) : FInv (submitId cfg s e id) := by
+  have hd := submit_drops_iff cfg e none s.g
+  simp only [submitId]
+  cases hs : submit cfg e none s.g with
+  | callNow c g' =>
+    have hnr : refuses cfg e s.g.subs = false := by
+      cases hr : refuses cfg e s.g.subs with
+      | false => rfl
+      | true => obtain ⟨c', g'', h'⟩ := hd.2 hr; rw [hs] at h'; cases h'
+    have hi := submit_callNow_invoked cfg e none s.g c g' hs
+    refine ⟨fun i => ?_, ?_, ?_, ?_, ?_⟩
+    · have := h.place i
+      simp only [FState.queued, List.count_append, List.count_singleton] at this ⊢
+      omega
+    · have := h.del; simp only at this ⊢; omega
+    · have := h.fin; simp only [List.length_append, List.length_singleton] at this ⊢; omega
+    · simp [hnr, h.dropRef]
+    · simp [G.invoke, hi, h.inv]
+  | dropNow c g' =>
+    have hr : refuses cfg e s.g.subs = true := hd.1 ⟨c, g', hs⟩
+    have hi := submit_dropNow_invoked cfg e none s.g c g' hs
+    refine ⟨fun i => ?_, ?_, ?_, ?_, ?_⟩
+    · have := h.place i
+      simp only [FState.queued, List.count_append, List.count_singleton] at this ⊢
+      omega
+    · have := h.del; simp only at this ⊢; omega
+    · have := h.fin; simp only [List.length_append, List.length_singleton] at this ⊢; omega
+    · simp [hr, h.dropRef]
+    · simp [hi, h.inv]
+  | queued jid k g' =>
+    have hnr : refuses cfg e s.g.subs = false := by
+      cases hr : refuses cfg e s.g.subs with
+      | false => rfl
+      | true => obtain ⟨c', g'', h'⟩ := hd.2 hr; rw [hs] at h'; cases h'
+    have hi := submit_queued_invoked cfg e none s.g jid k g' hs
+    refine ⟨fun i => ?_, ?_, ?_, ?_, ?_⟩
+    · have := h.place i
+      simp only [FState.queued, List.count_append, List.count_singleton, List.map_append, List.map_cons, List.map_nil] at this ⊢
+      omega
+    · have := h.del; simp only [List.length_append, List.length_singleton] at this ⊢; omega
+    · have := h.fin; simp only at this ⊢; omega
+    · simp [hnr, h.dropRef]
+    · simp [hi, h.inv]
+
 theorem finv_step (cfg : Cfg) (s : FState) (ev : FEvent) (h : FInv s) : FInv (fmech cfg s ev) := by
   cases ev with
-  | submit e id =>
-    have hd := submit_drops_iff cfg e none s.g
+  | submit e id o => exact finv_submitId cfg s e id h
+  | mk n tag o => exact ⟨h.place, h.del, h.fin, h.dropRef, h.inv⟩
+  | submitL e n =>
     simp only [fmech]
-    cases hs : submit cfg e none s.g with
-    | callNow c g' =>
-      have hnr : refuses cfg e s.g.subs = false := by
-        cases hr : refuses cfg e s.g.subs with
-        | false => rfl
-        | true => obtain ⟨c', g'', h'⟩ := hd.2 hr; rw [hs] at h'; cases h'
-      have hi := submit_callNow_invoked cfg e none s.g c g' hs
-      refine ⟨fun i => ?_, ?_, ?_, ?_, ?_⟩
-      · have := h.place i
-        simp only [FState.queued, List.count_append, List.count_singleton] at this ⊢
-        omega
-      · have := h.del; simp only at this ⊢; omega
-      · have := h.fin; simp only [List.length_append, List.length_singleton] at this ⊢; omega
-      · simp [hnr, h.dropRef]
-      · simp [G.invoke, hi, h.inv]
-    | dropNow c g' =>
-      have hr : refuses cfg e s.g.subs = true := hd.1 ⟨c, g', hs⟩
-      have hi := submit_dropNow_invoked cfg e none s.g c g' hs
-      refine ⟨fun i => ?_, ?_, ?_, ?_, ?_⟩
-      · have := h.place i
-        simp only [FState.queued, List.count_append, List.count_singleton] at this ⊢
-        omega
-      · have := h.del; simp only at this ⊢; omega
-      · have := h.fin; simp only [List.length_append, List.length_singleton] at this ⊢; omega
-      · simp [hr, h.dropRef]
-      · simp [hi, h.inv]
-    | queued jid k g' =>
-      have hnr : refuses cfg e s.g.subs = false := by
-        cases hr : refuses cfg e s.g.subs with
-        | false => rfl
-        | true => obtain ⟨c', g'', h'⟩ := hd.2 hr; rw [hs] at h'; cases h'
-      have hi := submit_queued_invoked cfg e none s.g jid k g' hs
-      refine ⟨fun i => ?_, ?_, ?_, ?_, ?_⟩
-      · have := h.place i
-        simp only [FState.queued, List.count_append, List.count_singleton, List.map_append, List.map_cons, List.map_nil] at this ⊢
-        omega
-      · have := h.del; simp only [List.length_append, List.length_singleton] at this ⊢; omega
-      · have := h.fin; simp only at this ⊢; omega
-      · simp [hnr, h.dropRef]
-      · simp [hi, h.inv]
+    cases s.fns.lookup n with
+    | none => exact h
+    | some tag => exact finv_submitId cfg s e tag h
+  | change n tag => exact ⟨h.place, h.del, h.fin, h.dropRef, h.inv⟩
+  | kill n => exact ⟨h.place, h.del, h.fin, h.dropRef, h.inv⟩
   | call k =>
     simp only [fmech]
     cases hf : s.queue.find? (fun j => j.k == k) with
